@@ -1050,6 +1050,59 @@ def rule_r21(prog, res):
               'C06', c06.rule_r6, prog, Result)
 
 
+# ------------------------------------------------------------------ R22
+def rule_r22(prog, res):
+    res.rule('R22', 'the lexical patterns of the duration and time readers '
+             'admit every digit-length class of the seconds fraction that '
+             'XSD allows (evaluated over the constant patterns)')
+    import re as _re
+    from ..constfold import try_fold
+    frac = ['1', '12', '123456', '1234567', '123456789', '1234567890123']
+    n = 0
+    for modname, constname, group, samples in (
+            ('spyne.protocol._inbase', '_duration_re', 'seconds',
+             ['7'] + ['7.' + f for f in frac]),
+            ('spyne.model.primitive.datetime', 'TIME_PATTERN', 'sec_frac',
+             ['.' + f for f in frac])):
+        m = prog.module(modname)
+        v = m.consts.get(constname)
+        if v is None:
+            raise AnalysisError('%s.%s' % (modname, constname), 'not found')
+        src = v
+        if isinstance(v, ast.Call) and call_name(v) == 'compile' and v.args:
+            src = v.args[0]
+        if isinstance(src, ast.Constant):
+            val = src.value
+        else:
+            okf, val = try_fold(prog, m, src)
+            if not okf:
+                val = None
+        if not isinstance(val, str):
+            res.unclass('R22', m.relpath, '%s is not a constant pattern' %
+                        constname)
+            continue
+        body = named_groups(val).get(group)
+        if body is None:
+            raise AnalysisError('%s.%s' % (modname, constname),
+                                'group %s not found' % group)
+        n += 1
+        rx = _re.compile('(?:%s)\\Z' % body)
+        missing = [x for x in samples if not rx.match(x)]
+        where = '%s:%d' % (m.relpath, v.lineno)
+        res.ob('R22', where, '%s group %s = %s admits %d/%d fraction lengths'
+               % (constname, group, body, len(samples) - len(missing),
+                  len(samples)), 'VIOLATED' if missing else 'ok')
+        if missing:
+            res.finding('R22', '%s|%s|fraction-length' % (constname, group),
+                        where, 'the %s group of %s (%s) does not match %s: a '
+                        'valid literal with that many fraction digits is '
+                        'either refused or, with the unanchored match() of '
+                        'the reader, loses its seconds silently '
+                        '(PT1.5000000S read as 0 seconds)' % (
+                            group, constname, body, missing[:3]))
+    res.floor('R22', 'fraction groups evaluated', n, 2)
+
+
 def run(prog, res, tier):
     res.run_rule(rule_r1, prog, res)
     res.run_rule(rule_r2_r7, prog, res, tier)
@@ -1071,6 +1124,7 @@ def run(prog, res, tier):
     res.run_rule(rule_r19, prog, res)
     res.run_rule(rule_r20, prog, res)
     res.run_rule(rule_r21, prog, res)
+    res.run_rule(rule_r22, prog, res)
 
 
 _I = 'spyne/protocol/_inbase.py'
@@ -1079,6 +1133,10 @@ _B = 'spyne/model/binary.py'
 _S = 'spyne/protocol/soap/soap11.py'
 
 MUTANTS = [
+    Mutant('duration-fraction-capped', 'R22', 'fire',
+           'spyne/protocol/_inbase.py',
+           in_func(None, r"(?P<seconds>\d+(\.\d+)?)S",
+                   r"(?P<seconds>\d+(\.\d{1,6})?)S"), 'fraction-length'),
     Mutant('empty-bytes-read-as-none', 'R20', 'fire', 'spyne/protocol/xml.py',
            in_func('XmlDocument.byte_array_from_element',
                    "retval = self.from_unicode(cls, s, self.binary_encoding)",
